@@ -29,6 +29,20 @@ func init() {
 	nameOf := func(v value) string { return concStr(v, "verifh draw name") }
 
 	H("Symbolic", func(fr *frame, args []value) value { return true })
+	H("Param", func(fr *frame, args []value) value {
+		if v, ok := fr.i.path.w.eng.cfg.Params[nameOf(args[1])]; ok {
+			return v
+		}
+		return int(fr.i.path.concInt(args[2], "param default"))
+	})
+	H("Known", func(fr *frame, args []value) value {
+		p := fr.i.path
+		if p.concBool(args[2]) {
+			p.known = append(p.known, nameOf(args[1]))
+			return true
+		}
+		return false
+	})
 	drawInt := func(fr *frame, name string, lo, hi int64, k types.BasicKind) value {
 		p := fr.i.path
 		b := p.bank()
